@@ -42,9 +42,10 @@ def gen_name(rng: random.Random, existing: list[str]) -> str:
     if depth >= 3 and rng.random() < 0.4:
         # the same piece at several levels (a/b/a, a/a/a)
         parts[rng.randrange(1, depth)] = parts[0]
-    # inferiors of (a case variant of) INBOX are left open by the statement
+    # what RENAME INBOX does to inferiors of (a case variant of) INBOX is
+    # left open by the statement: they are rare, and exactly INBOX/...
     if depth > 1 and parts[0].upper() == 'INBOX':
-        parts[0] = 'a'
+        parts[0] = 'INBOX' if rng.random() < 0.3 else 'a'
     return '/'.join(parts)
 
 
@@ -53,6 +54,7 @@ def gen_ns_case(rng: random.Random, tier: str, backends=('dict',)) -> dict:
            'bad_command_limit': 0, 'buggify': []}
     tokens = Tokens()
     names: list[str] = []
+    seen: set[str] = set()
     steps = []
     for _ in range(rng.randint(5, 30)):
         kind = rng.choices(
@@ -79,6 +81,11 @@ def gen_ns_case(rng: random.Random, tier: str, backends=('dict',)) -> dict:
             act['pattern'] = pat
         elif kind == 'rename':
             act['mailbox'] = gen_name(rng, names)
+            if canon(act['mailbox']) == 'INBOX' and any(
+                    n.upper().startswith('INBOX/') for n in seen):
+                # what RENAME INBOX does to inferiors of INBOX is left open
+                # by the statement: not asked once such names are around
+                act['mailbox'] = 'a'
             to = gen_name(rng, names)
             while to.startswith(act['mailbox'] + '/'):
                 to = gen_name(rng, [])
@@ -95,6 +102,7 @@ def gen_ns_case(rng: random.Random, tier: str, backends=('dict',)) -> dict:
             names.append(act['mailbox'])
         if kind == 'rename':
             names.append(act['to'])
+        seen.update(act.get(k) for k in ('mailbox', 'to') if act.get(k))
         if kind == 'status':
             act['items'] = ['MESSAGES', 'UIDNEXT', 'UIDVALIDITY',
                             'MAILBOXID']
@@ -133,8 +141,10 @@ class NsModel:
             # cannot be kept in the subscriptions file
             # cur, new and tmp are the store's own directories in the fs
             # layout, and its control files sit next to the sub-folders
+            # (and the fs layout has no place for inferiors of INBOX)
             return any('.' in p or '\r' in p or '\n' in p
-                       or p in STORE_NAMES for p in parts)
+                       or p in STORE_NAMES for p in parts) \
+                or parts[0] == 'INBOX'
         return False
 
     @staticmethod
